@@ -65,6 +65,7 @@ type c16 struct {
 	r    *Run
 	f    *Fix
 	base sdk.Context
+	f0   Fix // the prepared fixture (C18 continue-after-import replaces the application behind h.f)
 	bh   int64
 	bt   time.Time
 	bond string
@@ -145,6 +146,7 @@ func newC16(t *testing.T, r *Run) *c16 {
 		t.Fatal(err)
 	}
 	h.qs = sponskeeper.NewQueryServer(f.App.SponsorshipKeeper)
+	f.Rebind = append(f.Rebind, func() { h.qs = sponskeeper.NewQueryServer(h.f.App.SponsorshipKeeper) })
 	dym := math.NewIntWithDecimal(1, 18)
 	for i := 0; i < c16NActors; i++ {
 		a := Actor(i)
@@ -217,6 +219,7 @@ func newC16(t *testing.T, r *Run) *c16 {
 	}
 	h.base, h.bh, h.bt = f.Ctx, f.Height, f.Time
 	h.installHookRecorder()
+	h.f0 = *f
 	return h
 }
 
@@ -633,6 +636,7 @@ func (h *c16) exec(line string) (string, string) {
 	kind := t[0]
 	switch kind {
 	case "reset":
+		h.f.Restore(h.f0)
 		h.f.Ctx, _ = h.base.CacheContext()
 		h.f.Height, h.f.Time = h.bh, h.bt
 		h.minAl, h.minVP = c16Int(arg(1)), c16Int(arg(2))
